@@ -723,6 +723,27 @@ class C17(ListBase):
                 items[0].text = "x"
             yield self.mk_items(items, gen.Spelling(), rng.random() < 0.7, "ast")
         yield from self.multi_inline(rng, quick(tier, 500, 20000))
+        # unwrap-blocks that cannot be unwrapped (no line or one line between the tags), with elements on that line
+        sp = gen.Spelling()
+        for i in range(quick(tier, 300, 8000)):
+            lines = [rng.choice(["a", "  b", ""]) for _ in range(rng.randint(1, 2))]
+            for _ in range(rng.randint(1, 2)):
+                e = gen.El(rng.choice(["tl", "rm"]), rng.random() < 0.7)
+                e.unwrap = True
+                ind = rng.choice(["", "  ", "\t"])
+                lines.append(ind + sp.open_tag(e))
+                if rng.random() < 0.8:
+                    parts = [rng.choice(["", "x ", "  "])]
+                    for _ in range(rng.choice([1, 1, 2])):
+                        ie = gen.El(rng.choice(["tl", "rm"]), rng.random() < 0.4)
+                        parts.append(sp.open_tag(ie) + rng.choice(["y", "", "é"]) + sp.close_tag(ie) + rng.choice(["", " ", " z"]))
+                    lines.append("".join(parts))
+                lines.append(ind + sp.close_tag(e))
+                lines.extend(rng.choice(["c", "", "  d"]) for _ in range(rng.randint(0, 2)))
+            src = "\n".join(lines) + ("\n" if rng.random() < 0.7 else "")
+            if src.startswith("\n"):
+                src = "x" + src
+            yield self.mk(src, "<", ">", Cfg(), "short-unwrap")
         # outside the property's space (tags on the wrapper lines of unwrap-blocks): implementation against model only
         for i in range(quick(tier, 1500, 40000)):
             g = gen.DocGen(rng, depth=rng.choice([2, 3]), p_unwrap=0.6, p_ready=0.55, p_skip=0.05, p_wrapper_tags=0.6, p_inline=0.2,
@@ -830,7 +851,7 @@ class C18(Base):
             nb = rng.choice(gen.TAG_NAMES)
             spa = gen.Spelling(pairs[a][0], pairs[a][1], na[0], na[1])
             spb = gen.Spelling(pairs[b][0], pairs[b][1], nb[0], nb[1])
-            yield self.mk_pair(items, spa, spb, True, "ast-pair")
+            yield self.mk_pair(items, spa, spb, rng.random() < 0.7, "ast-pair")
 
     def oracle(self, case, impl, spec):
         vals = []
@@ -1139,9 +1160,9 @@ class C20(Base):
         sp = gen.Spelling(self.DEF["ds"], self.DEF["de"], self.DEF["tl"], self.DEF["rm"])
         for style in ["lf", "crlf", "no-final-newline", "blank-line"]:
             for mode, js in [("clean", False), ("list", False), ("list", True), ("list_all", False), ("list_all", True)]:
-                pool = ["a", "b", "c d", "vec![]", "b "]
+                pool = ["a", "b", "c d", "vec![]", "b ", ""]
                 rng.shuffle(pool)
-                infile = pool[:rng.randint(1, 3)]
+                infile = [x for x in pool[:rng.randint(1, 3)] if x != ""] or ["a"]
                 lines = []
                 for nm in pool:
                     e = gen.El("rm", True)
@@ -1152,6 +1173,15 @@ class C20(Base):
                      "off": self.DEF["off"], "now": gen.NOW, "flags": [], "file": infile, "file_style": style,
                      "mode": mode, "list_flag_both": False, "json": js}
                 yield self.mk_case(m, "cli-config-file")
+        # long lines, with and without a final line break: stdout is line buffered (1024 bytes), pipes have 64 KiB
+        for n_chars in (1023, 1024, 1025, 5000, 70000):
+            for final in (False, True):
+                body = "keep();\n" + self.DEF["ds"] + "removal-marker name='a'" + self.DEF["de"] + "\ngone();\n" + self.DEF["ds"] + "/removal-marker" + self.DEF["de"] + "\n"
+                src = body + "y" * n_chars + ("\n" if final else "")
+                m = {"src": src, "ds": self.DEF["ds"], "de": self.DEF["de"], "tl": self.DEF["tl"], "rm": self.DEF["rm"],
+                     "off": self.DEF["off"], "now": gen.NOW, "flags": ["a"], "file": None, "file_style": "lf",
+                     "mode": "clean", "list_flag_both": False, "json": False}
+                yield self.mk_case(m, "cli-long-line")
         # the empty document and documents of white space only, through every mode and route
         for src in ["", "\n", " ", "\n\n"]:
             for mode, js in [("clean", False), ("list", False), ("list", True), ("list_all", False), ("list_all", True)]:
